@@ -91,6 +91,16 @@ type plCfg struct {
 	// (plWeeklyZoned); SvcPaused still says what the schedule yields now.
 	SvcZoned bool
 	svcZone  string
+	// round 9: SvcViaSet: the global list of blocked-service ids is stored
+	// after start through the deprecated POST /control/blocked_services/set,
+	// the entry point that accepts ids the service table does not know
+	// (filtering.New and PUT blocked_services/update validate); Svcs and the
+	// clients' Svcs may then hold unknown ids at any position (the client
+	// storage does not validate either; the admin handlers of package home
+	// do).  SvcIDsMode: emit compares every answer with a server whose lists
+	// hold the known ids only.
+	SvcViaSet  bool
+	SvcIDsMode bool
 	SBHost   string
 	ParHost  string
 	Custom   []*vfRule // block list id 0 (custom rules)
@@ -465,7 +475,7 @@ func (c *plCfg) desc0() map[string]any {
 		"protection": c.ProtEnabled, "pause_deadline": []string{"none", "future", "past"}[c.Deadline],
 		"filtering": c.Filtering, "safebrowsing": c.SB, "parental": c.Par, "mode": string(c.Mode),
 		"ip4": c.IP4.String(), "ip6": c.IP6.String(), "ttl": c.TTL, "aaaa_disabled": c.AAAADisabled,
-		"blocked_services": c.Svcs, "services_paused": c.SvcPaused, "services_schedule_zone": c.svcZone,
+		"blocked_services": c.Svcs, "blocked_services_stored_via_legacy_set": c.SvcViaSet, "services_paused": c.SvcPaused, "services_schedule_zone": c.svcZone,
 		"custom_rules": vfRuleTexts(c.Custom), "block_list": vfRuleTexts(c.Block), "allow_list": vfRuleTexts(c.Allow),
 		"sb_hosts": c.SBHosts, "parental_hosts": c.ParHosts, "clients": c.Clients, "proxy_cache": c.CacheOn, "dnssec": c.DNSSEC && !c.CacheOn,
 		"sb_block_host": c.SBHost, "parental_block_host": c.ParHost,
@@ -665,15 +675,20 @@ func (ps *plServer) listsClasses() (cl []string) {
 // post calls a captured handler of the filtering module as the web API would.
 func (ps *plServer) post(t *testing.T, path string, body any) (code int, text string) {
 	t.Helper()
-	h := ps.handlers[http.MethodPost+" "+path]
+	return ps.call(t, http.MethodPost, path, body)
+}
+
+func (ps *plServer) call(t *testing.T, method, path string, body any) (code int, text string) {
+	t.Helper()
+	h := ps.handlers[method+" "+path]
 	if h == nil {
-		t.Fatalf("no handler registered for POST %s", path)
+		t.Fatalf("no handler registered for %s %s", method, path)
 	}
 	data, err := json.Marshal(body)
 	if err != nil {
 		t.Fatal(err)
 	}
-	r := httptest.NewRequest(http.MethodPost, "http://agh.example"+path, bytes.NewReader(data))
+	r := httptest.NewRequest(method, "http://agh.example"+path, bytes.NewReader(data))
 	r.Header.Set("Content-Type", "application/json")
 	w := httptest.NewRecorder()
 	h(w, r)
@@ -937,7 +952,7 @@ func plNewServer(t *testing.T, c *plCfg) *plServer {
 		SafeBrowsingBlockHost:  c.SBHost,
 		ParentalBlockHost:      c.ParHost,
 		ApplyClientFiltering:   storage.ApplyClientFiltering,
-		BlockedServices:        &filtering.BlockedServices{Schedule: c.svcSchedule(c.SvcPaused), IDs: c.Svcs},
+		BlockedServices:        &filtering.BlockedServices{Schedule: c.svcSchedule(c.SvcPaused), IDs: map[bool][]string{false: c.Svcs, true: nil}[c.SvcViaSet]},
 		DataDir:                t.TempDir(),
 		ConfigModified:         func() {},
 		SafeSearchConf:         filtering.SafeSearchConfig{Enabled: c.SafeSearch},
@@ -986,6 +1001,9 @@ func plNewServer(t *testing.T, c *plCfg) *plServer {
 		fconf.ProtectionDisabledUntil = &d
 	}
 	handlers := map[string]http.HandlerFunc{}
+	if c.SvcViaSet {
+		fconf.HTTPRegister = func(method, url string, h http.HandlerFunc) { handlers[method+" "+url] = h }
+	}
 	if c.Lists != nil {
 		fconf.FilteringEnabled = c.Filtering
 		fconf.UserRules = vfRuleTexts(c.Custom)
@@ -1109,7 +1127,98 @@ func plNewServer(t *testing.T, c *plCfg) *plServer {
 		ps.histInit = c.listsStateCoq()
 		ps.histCfg = c.Coq()
 	}
+	if c.SvcViaSet {
+		if c.Lists == nil {
+			f.RegisterFilteringHandlers()
+		}
+		code, text := ps.call(t, http.MethodPost, "/control/blocked_services/set", append([]string{}, c.Svcs...))
+		if code != http.StatusOK {
+			t.Fatalf("blocked_services/set %q: %d %s", c.Svcs, code, text)
+		}
+	}
 	return ps
+}
+
+// plSvcTableCoq renders the table of the test services.
+func plSvcTableCoq() string {
+	tbl := make([]string, len(plServices))
+	for i, s := range plServices {
+		tbl[i] = vfPair(vfBytes(s.ID), plNRulesCoq(s.Rules))
+	}
+	return vfList("bytes * list nrule", tbl)
+}
+
+// svcCall calls one of the two entry points of the global list and returns
+// the step of a Run/PipeCase.CSvcStore history: the call, whether it was
+// accepted, the list stored afterwards.
+func (ps *plServer) svcCall(t *testing.T, update bool, ids []string) (step string, accepted bool) {
+	t.Helper()
+	var code int
+	ctor := "SESet"
+	if update {
+		ctor = "SEUpdate"
+		code, _ = ps.call(t, http.MethodPut, "/control/blocked_services/update", map[string]any{"ids": ids, "schedule": map[string]any{"time_zone": "UTC"}})
+	} else {
+		code, _ = ps.call(t, http.MethodPost, "/control/blocked_services/set", append([]string{}, ids...))
+	}
+	accepted = code == http.StatusOK
+	got := ps.storedSvcIDs(t)
+	ps.cfg.Svcs, ps.ref = got, nil
+	return vfPair(vfPair(vfApp(ctor, vfBytesList(ids)), vfBool(accepted)), vfBytesList(got)), accepted
+}
+
+// plKnownSvc: the id is in the service table (the test services; the
+// harness draws no built-in id).
+func plKnownSvc(id string) bool {
+	for _, s := range plServices {
+		if s.ID == id {
+			return true
+		}
+	}
+	return false
+}
+
+func plKnownSvcs(ids []string) (known []string) {
+	for _, id := range ids {
+		if plKnownSvc(id) {
+			known = append(known, id)
+		}
+	}
+	return known
+}
+
+// storedSvcIDs reads the global list back through GET /control/blocked_services/get.
+func (ps *plServer) storedSvcIDs(t *testing.T) []string {
+	t.Helper()
+	code, text := ps.call(t, http.MethodGet, "/control/blocked_services/get", nil)
+	if code != http.StatusOK {
+		t.Fatalf("blocked_services/get: %d %s", code, text)
+	}
+	var v struct {
+		IDs []string `json:"ids"`
+	}
+	if err := json.Unmarshal([]byte(text), &v); err != nil {
+		t.Fatalf("blocked_services/get: %v in %s", err, text)
+	}
+	return v.IDs
+}
+
+// svcReference: a server whose lists of blocked services (global and per
+// client) hold the KNOWN ids of ps's lists, in the same order, stored the
+// validated way (filtering.New).
+func (ps *plServer) svcReference(t *testing.T) *plServer {
+	if ps.ref != nil {
+		return ps.ref
+	}
+	c := *ps.cfg
+	c.SvcViaSet, c.SvcIDsMode = false, false
+	c.Svcs = plKnownSvcs(ps.cfg.Svcs)
+	c.Clients = append([]plClient{}, ps.cfg.Clients...)
+	for i := range c.Clients {
+		c.Clients[i].Svcs = plKnownSvcs(c.Clients[i].Svcs)
+	}
+	ps.ref = plNewServer(t, &c)
+	return ps.ref
 }
 
 // ---- records and responses
